@@ -242,7 +242,7 @@ def _verify(m, fmt, out, ctx, ref, want_cluster):
         else:
             v, lookup = _verify_excel(m, out, ctx, ref)
         if lookup is not None and want_cluster is not None:
-            unit = 1e-6 if fmt == "DL_POLY_EAM_fs" else 0.0
+            unit = 0.0      # every format carries full precision (TABEAM since F51)
             got = _cluster_file(m, lookup, nr)
             for i, (g_, w) in enumerate(zip(got, want_cluster)):
                 tol = 256 * 2.3e-16 * w.e + 1e-12 * abs(w.v) + unit * len(got) + 1e-300
